@@ -163,3 +163,318 @@ Proof.
   - rewrite D1, D2. rewrite !T. rewrite Hd. tauto.
   - intros x. rewrite S1, S2. rewrite (T ms1 (fun c => oset c x)), (T ms2 (fun c => oset c x)). rewrite (Hs x). tauto.
 Qed.
+
+(* ---- pattern tables: entries in any order, maps equal as rule sets ---- *)
+Section RMap.
+  Variables M X : Type.
+  Notation rtab := (list (N * M * amap (list X))).
+
+  Inductive rmap_eq : rtab -> rtab -> Prop :=
+  | re_nil : rmap_eq [] []
+  | re_cons i r m1 m2 t1 t2 : rules_eq m1 m2 -> rmap_eq t1 t2 -> rmap_eq ((i, r, m1) :: t1) ((i, r, m2) :: t2)
+  | re_swap a b t : rmap_eq (a :: b :: t) (b :: a :: t)
+  | re_trans t1 t2 t3 : rmap_eq t1 t2 -> rmap_eq t2 t3 -> rmap_eq t1 t3.
+
+  Lemma rmap_eq_refl t : rmap_eq t t.
+  Proof. induction t as [|[[i r] m] t IH]; [constructor | apply re_cons; [apply rules_eq_refl | exact IH]]. Qed.
+  Lemma rmap_eq_sym t1 t2 : rmap_eq t1 t2 -> rmap_eq t2 t1.
+  Proof.
+    induction 1; [constructor | apply re_cons; [apply rules_eq_sym; assumption | assumption] | apply re_swap | eapply re_trans; eauto].
+  Qed.
+
+  (* what the code asks of a pattern table: a predicate on the pattern and on the map as a rule set *)
+  Lemma rmap_eq_existsb (f : M -> bool) (h : amap (list X) -> bool) t1 t2 :
+    (forall m1 m2, rules_eq m1 m2 -> h m1 = h m2) -> rmap_eq t1 t2 ->
+    existsb (fun e => f (snd (fst e)) && h (snd e)) t1 = existsb (fun e => f (snd (fst e)) && h (snd e)) t2.
+  Proof.
+    intros Hh. induction 1 as [|i r m1 m2 t1 t2 Hm Ht IH|a b t|t1 t2 t3 H1 IH1 H2 IH2]; cbn [existsb fst snd].
+    - reflexivity.
+    - rewrite IH, (Hh m1 m2 Hm). reflexivity.
+    - rewrite !orb_assoc. f_equal. apply orb_comm.
+    - congruence.
+  Qed.
+
+  Lemma rmap_eq_maps_rel (f : M -> bool) t1 t2 : rmap_eq t1 t2 ->
+    maps_rel (map snd (filter (fun e => f (snd (fst e))) t1)) (map snd (filter (fun e => f (snd (fst e))) t2)).
+  Proof.
+    induction 1 as [|i r m1 m2 t1 t2 Hm Ht IH|a b t|t1 t2 t3 H1 IH1 H2 IH2].
+    - intros k. split; [|intros x]; tauto.
+    - intros k. cbn [filter fst snd]. destruct (f r); [|apply IH]. cbn [map]. specialize (IH k) as [IHd IHs].
+      specialize (Hm k). apply opt_rel_same_set_iff in Hm as [Hd Hs]. split.
+      + split; intros (m & [<-|Hin] & Ho).
+        * exists m2. split; [left; reflexivity | apply Hd; exact Ho].
+        * destruct (proj1 IHd (ex_intro _ m (conj Hin Ho))) as (m' & Hin' & Ho'). exists m'. split; [right; exact Hin' | exact Ho'].
+        * exists m1. split; [left; reflexivity | apply Hd; exact Ho].
+        * destruct (proj2 IHd (ex_intro _ m (conj Hin Ho))) as (m' & Hin' & Ho'). exists m'. split; [right; exact Hin' | exact Ho'].
+      + intros x. split; intros (m & [<-|Hin] & Ho).
+        * exists m2. split; [left; reflexivity | apply Hs; exact Ho].
+        * destruct (proj1 (IHs x) (ex_intro _ m (conj Hin Ho))) as (m' & Hin' & Ho'). exists m'. split; [right; exact Hin' | exact Ho'].
+        * exists m1. split; [left; reflexivity | apply Hs; exact Ho].
+        * destruct (proj2 (IHs x) (ex_intro _ m (conj Hin Ho))) as (m' & Hin' & Ho'). exists m'. split; [right; exact Hin' | exact Ho'].
+    - intros k. cbn [filter]. destruct (f (snd (fst a))), (f (snd (fst b))); cbn [map]; split; try (intros x); try tauto;
+        split; intros (m & Hin & Ho); exists m; (split; [|exact Ho]); cbn [In] in *; tauto.
+    - intros k. destruct (IH1 k) as [A1 B1]. destruct (IH2 k) as [A2 B2]. split; [rewrite A1; exact A2 | intros x; rewrite (B1 x); apply B2].
+  Qed.
+
+  Definition nodup_tab (t : rtab) : Prop := Forall (fun e => nodup_keys (snd e)) t.
+
+  Lemma nodup_tab_filter (f : N * M * amap (list X) -> bool) t : nodup_tab t -> Forall nodup_keys (map snd (filter f t)).
+  Proof.
+    intros H. apply Forall_forall. intros m Hm. apply in_map_iff in Hm as (e & <- & He). apply filter_In in He as [He _].
+    unfold nodup_tab in H. rewrite Forall_forall in H. apply H. exact He.
+  Qed.
+
+  Lemma rmap_eq_merge (f : M -> bool) t1 t2 : rmap_eq t1 t2 -> nodup_tab t1 -> nodup_tab t2 ->
+    rules_eq (merge_maps (map snd (filter (fun e => f (snd (fst e))) t1))) (merge_maps (map snd (filter (fun e => f (snd (fst e))) t2))).
+  Proof.
+    intros H N1 N2. apply merge_maps_rel; [apply nodup_tab_filter; exact N1 | apply nodup_tab_filter; exact N2 | apply rmap_eq_maps_rel; exact H].
+  Qed.
+
+  Lemma rmap_eq_filter_empty (f : M -> bool) t1 t2 : rmap_eq t1 t2 ->
+    match filter (fun e => f (snd (fst e))) t1 with [] => false | _ => true end =
+    match filter (fun e => f (snd (fst e))) t2 with [] => false | _ => true end.
+  Proof.
+    intros H. pose proof (rmap_eq_existsb f (fun _ => true) t1 t2 (fun _ _ _ => eq_refl) H) as E.
+    assert (T : forall t : rtab, match filter (fun e => f (snd (fst e))) t with [] => false | _ => true end =
+                       existsb (fun e => f (snd (fst e)) && true) t).
+    { induction t as [|e t IH]; cbn [filter existsb]; [reflexivity|]. rewrite andb_true_r. destruct (f (snd (fst e))); [reflexivity | exact IH]. }
+    rewrite !T. exact E.
+  Qed.
+End RMap.
+Arguments rmap_eq {M X} _ _.
+Arguments nodup_tab {M X} _.
+
+(* ---- policies that hold the same rules ---- *)
+Section Peq.
+  Variables M U R : Type.
+  Variable I : interp M U R.
+
+  Record peq (p q : policy M U R) : Prop := {
+    pe_addSpaces : addSpaces p = addSpaces q;
+    pe_nf : requireNoFollow p = requireNoFollow q;
+    pe_nffq : requireNoFollowFQ p = requireNoFollowFQ q;
+    pe_nr : requireNoReferrer p = requireNoReferrer q;
+    pe_nrfq : requireNoReferrerFQ p = requireNoReferrerFQ q;
+    pe_co : requireCrossOrigin p = requireCrossOrigin q;
+    pe_sandbox : opt_rel same_set (requireSandbox p) (requireSandbox q);
+    pe_tb : addTargetBlank p = addTargetBlank q;
+    pe_parse : requireParseableURLs p = requireParseableURLs q;
+    pe_rel : allowRelativeURLs p = allowRelativeURLs q;
+    pe_data : allowDataAttributes p = allowDataAttributes q;
+    pe_comments : allowComments p = allowComments q;
+    pe_ea : table_eq (elsAndAttrs p) (elsAndAttrs q);
+    pe_ema : rmap_eq (elsMatchingAndAttrs p) (elsMatchingAndAttrs q);
+    pe_ema_nd1 : nodup_tab (elsMatchingAndAttrs p);
+    pe_ema_nd2 : nodup_tab (elsMatchingAndAttrs q);
+    pe_ga : rules_eq (globalAttrs p) (globalAttrs q);
+    pe_es : table_eq (elsAndStyles p) (elsAndStyles q);
+    pe_ems : rmap_eq (elsMatchingAndStyles p) (elsMatchingAndStyles q);
+    pe_ems_nd1 : nodup_tab (elsMatchingAndStyles p);
+    pe_ems_nd2 : nodup_tab (elsMatchingAndStyles q);
+    pe_gs : rules_eq (globalStyles p) (globalStyles q);
+    pe_schemes : rules_eq (allowURLSchemes p) (allowURLSchemes q);
+    pe_schemeres : same_set (allowURLSchemeRegexps p) (allowURLSchemeRegexps q);
+    pe_rewriter : srcRewriter p = srcRewriter q;
+    pe_na : same_set (elsNoAttrs p) (elsNoAttrs q);
+    pe_mna : same_set (elsMatchingNoAttrs p) (elsMatchingNoAttrs q);
+    pe_skip : same_set (elsSkipContent p) (elsSkipContent q);
+    pe_unsafe : allowUnsafe p = allowUnsafe q
+  }.
+
+  Variables p q : policy M U R.
+  Hypothesis E : peq p q.
+
+  Lemma nonempty_rules_eq {X} (m1 m2 : amap (list X)) : rules_eq m1 m2 ->
+    match m1 with [] => false | _ => true end = match m2 with [] => false | _ => true end.
+  Proof. intros H. pose proof (rules_eq_empty_iff m1 m2 H) as T. destruct m1, m2; try reflexivity; discriminate. Qed.
+
+  Lemma peq_allow_no_attrs n : allow_no_attrs I p n = allow_no_attrs I q n.
+  Proof.
+    unfold allow_no_attrs. rewrite (mem_same_set n _ _ (pe_na p q E)).
+    rewrite (existsb_same_set (fun r => mmatch I r n) _ _ (pe_mna p q E)). reflexivity.
+  Qed.
+
+  Lemma peq_rules_accept (m1 m2 : amap (list (attr_policy M))) a : rules_eq m1 m2 -> rules_accept I m1 a = rules_accept I m2 a.
+  Proof.
+    intros H. unfold rules_accept. specialize (H (akey a)).
+    destruct (lookup (akey a) m1), (lookup (akey a) m2); cbn in H; try contradiction; [|reflexivity].
+    apply existsb_same_set. exact H.
+  Qed.
+
+  Lemma peq_element_policies n : opt_rel rules_eq (element_policies I p n) (element_policies I q n).
+  Proof.
+    unfold element_policies. pose proof (pe_ea p q E n) as T.
+    destruct (lookup n (elsAndAttrs p)), (lookup n (elsAndAttrs q)); cbn in T; try contradiction; [exact T|].
+    unfold match_regex, matching_entries.
+    rewrite (rmap_eq_filter_empty M _ (fun r => mmatch I r n) _ _ (pe_ema p q E)).
+    destruct (filter (fun e => mmatch I (snd (fst e)) n) (elsMatchingAndAttrs q)) eqn:Ef; [exact Logic.I|]. rewrite <- Ef.
+    cbn. apply (rmap_eq_merge M _ (fun r => mmatch I r n)); [exact (pe_ema p q E) | exact (pe_ema_nd1 p q E) | exact (pe_ema_nd2 p q E)].
+  Qed.
+
+  Lemma peq_has_style_policies n : has_style_policies I p n = has_style_policies I q n.
+  Proof.
+    unfold has_style_policies. f_equal; [f_equal|].
+    - apply nonempty_rules_eq. exact (pe_gs p q E).
+    - pose proof (pe_es p q E n) as T. destruct (lookup n (elsAndStyles p)) as [m1|], (lookup n (elsAndStyles q)) as [m2|]; cbn in T; try contradiction; [|reflexivity].
+      pose proof (nonempty_rules_eq m1 m2 T) as T2. destruct m1, m2; try reflexivity; discriminate.
+    - apply (rmap_eq_existsb M _ (fun r => mmatch I r n) (fun m => match m with [] => false | _ => true end)); [|exact (pe_ems p q E)].
+      intros m1 m2. apply nonempty_rules_eq.
+  Qed.
+
+  Lemma peq_element_styles n : rules_eq (element_styles I p n) (element_styles I q n).
+  Proof.
+    unfold element_styles.
+    assert (Hm : rules_eq (merge_maps (map snd (filter (fun e => mmatch I (snd (fst e)) n) (elsMatchingAndStyles p))))
+                          (merge_maps (map snd (filter (fun e => mmatch I (snd (fst e)) n) (elsMatchingAndStyles q))))).
+    { apply (rmap_eq_merge M _ (fun r => mmatch I r n)); [exact (pe_ems p q E) | exact (pe_ems_nd1 p q E) | exact (pe_ems_nd2 p q E)]. }
+    pose proof (pe_es p q E n) as T.
+    destruct (lookup n (elsAndStyles p)) as [m1|], (lookup n (elsAndStyles q)) as [m2|]; cbn in T; try contradiction; [|exact Hm].
+    pose proof (nonempty_rules_eq m1 m2 T) as T2. destruct m1, m2; try discriminate; [exact Hm | exact T].
+  Qed.
+
+  Lemma peq_decl_allowed sps1 sps2 prop val : rules_eq sps1 sps2 -> decl_allowed I p sps1 prop val = decl_allowed I q sps2 prop val.
+  Proof.
+    intros H. unfold decl_allowed.
+    set (tprop := fold_left _ style_prefixes (to_lower prop)). set (tval := remove_unicode (to_lower val)).
+    f_equal.
+    - specialize (H tprop). destruct (lookup tprop sps1), (lookup tprop sps2); cbn in H; try contradiction; [|reflexivity].
+      apply existsb_same_set. exact H.
+    - pose proof (pe_gs p q E tprop) as T. destruct (lookup tprop (globalStyles p)), (lookup tprop (globalStyles q)); cbn in T; try contradiction; [|reflexivity].
+      apply existsb_same_set. exact T.
+  Qed.
+
+  Lemma peq_sanitize_styles n v : sanitize_styles I p n v = sanitize_styles I q n v.
+  Proof.
+    unfold sanitize_styles. destruct (css_decls I _) as [decs|]; [|reflexivity].
+    f_equal. f_equal. apply filter_ext. intros d. apply peq_decl_allowed. apply peq_element_styles.
+  Qed.
+
+  Lemma peq_valid_url v : valid_url I p v = valid_url I q v.
+  Proof.
+    unfold valid_url. rewrite (pe_parse p q E). destruct (requireParseableURLs q); [|reflexivity].
+    destruct (_ && _); [reflexivity|]. destruct (url_parse I _) as [u|]; [|reflexivity].
+    destruct (u_scheme u) as [|c sc] eqn:Es.
+    - rewrite (pe_rel p q E). reflexivity.
+    - pose proof (pe_schemes p q E (c :: sc)) as T.
+      destruct (lookup (c :: sc) (allowURLSchemes p)) as [l1|], (lookup (c :: sc) (allowURLSchemes q)) as [l2|]; cbn in T; try contradiction.
+      + destruct l1 as [|x1 l1].
+        * rewrite (same_set_nil l2 T). reflexivity.
+        * destruct l2 as [|x2 l2]; [apply same_set_sym in T; apply same_set_nil in T; discriminate|].
+          rewrite (existsb_same_set (fun f => upol I f u) _ _ T). reflexivity.
+      + rewrite (existsb_same_set (fun r => mmatch I r (c :: sc)) _ _ (pe_schemeres p q E)). reflexivity.
+  Qed.
+
+  Lemma peq_filter_attr n aps1 aps2 a : rules_eq aps1 aps2 ->
+    filter_attr I p n aps1 (has_style_policies I p n) a = filter_attr I q n aps2 (has_style_policies I q n) a.
+  Proof.
+    intros H. unfold filter_attr. rewrite (pe_data p q E), peq_has_style_policies, peq_sanitize_styles.
+    rewrite (peq_rules_accept aps1 aps2 a H), (peq_rules_accept _ _ a (pe_ga p q E)). reflexivity.
+  Qed.
+
+  Lemma peq_url_pass_attr n a : url_pass_attr I p n a = url_pass_attr I q n a.
+  Proof. unfold url_pass_attr. rewrite peq_valid_url, (pe_rewriter p q E). reflexivity. Qed.
+
+  Lemma peq_link_pass n l : link_pass I p n l = link_pass I q n l.
+  Proof.
+    unfold link_pass. rewrite (pe_nf p q E), (pe_nffq p q E), (pe_nr p q E), (pe_nrfq p q E), (pe_tb p q E). reflexivity.
+  Qed.
+
+  Lemma peq_crossorigin_pass n l : crossorigin_pass p n l = crossorigin_pass q n l.
+  Proof. unfold crossorigin_pass. rewrite (pe_co p q E). reflexivity. Qed.
+
+  Lemma dedup_keep_same_set a1 a2 : same_set a1 a2 -> forall ws seen, dedup_keep a1 seen ws = dedup_keep a2 seen ws.
+  Proof.
+    intros H. induction ws as [|w ws IH]; intros seen; cbn [dedup_keep]; [reflexivity|].
+    rewrite (mem_same_set w a1 a2 H). destruct (mem w a2 && negb (mem w seen)); rewrite ?IH; reflexivity.
+  Qed.
+
+  Lemma peq_sandbox_pass n l : sandbox_pass p n l = sandbox_pass q n l.
+  Proof.
+    unfold sandbox_pass. pose proof (pe_sandbox p q E) as T.
+    destruct (requireSandbox p) as [a1|], (requireSandbox q) as [a2|]; cbn in T; try contradiction; [|reflexivity].
+    destruct (beqb n (B"iframe")); [|reflexivity]. destruct (existsb _ l); [|reflexivity].
+    apply map_ext. intros a. destruct (key_is _ a); [|reflexivity]. rewrite (dedup_keep_same_set a1 a2 T). reflexivity.
+  Qed.
+
+  Lemma peq_sanitize_attrs n attrs aps1 aps2 : rules_eq aps1 aps2 ->
+    sanitize_attrs I p n attrs aps1 = sanitize_attrs I q n attrs aps2.
+  Proof.
+    intros H. unfold sanitize_attrs. destruct attrs as [|a0 ar]; [reflexivity|].
+    remember (flat_map (filter_attr I p n aps1 (has_style_policies I p n)) (a0 :: ar)) as c1 eqn:E1.
+    remember (flat_map (filter_attr I q n aps2 (has_style_policies I q n)) (a0 :: ar)) as c2 eqn:E2.
+    assert (Hc : c1 = c2).
+    { subst c1 c2. apply flat_map_ext. intros a. apply peq_filter_attr. exact H. }
+    rewrite Hc. clear E1 E2 Hc c1. destruct c2 as [|c0 cl]; [reflexivity|].
+    rewrite (pe_parse p q E).
+    assert (Hu : flat_map (url_pass_attr I p n) (c0 :: cl) = flat_map (url_pass_attr I q n) (c0 :: cl)).
+    { apply flat_map_ext. intros a. apply peq_url_pass_attr. }
+    rewrite Hu. rewrite peq_sandbox_pass, peq_crossorigin_pass. destruct (linkable n); rewrite ?peq_link_pass; reflexivity.
+  Qed.
+
+  Lemma peq_clean_attrs n a aps1 aps2 : rules_eq aps1 aps2 -> clean_attrs I p n a aps1 = clean_attrs I q n a aps2.
+  Proof. intros H. unfold clean_attrs. destruct a; [reflexivity|]. apply peq_sanitize_attrs. exact H. Qed.
+
+  (* ---- the token loop ---- *)
+  Lemma peq_space : space_if_adding p = space_if_adding q.
+  Proof. unfold space_if_adding. rewrite (pe_addSpaces p q E). reflexivity. Qed.
+
+  Lemma lookup_ea_iff n : match lookup n (elsAndAttrs p) with Some _ => true | None => false end =
+                          match lookup n (elsAndAttrs q) with Some _ => true | None => false end.
+  Proof. pose proof (pe_ea p q E n) as T. destruct (lookup n (elsAndAttrs p)), (lookup n (elsAndAttrs q)); cbn in T; try contradiction; reflexivity. Qed.
+
+  Lemma existsb_ext_eq {A} (f g : A -> bool) l : (forall x, f x = g x) -> existsb f l = existsb g l.
+  Proof. intros H. induction l as [|x l IH]; cbn; [reflexivity | rewrite H, IH; reflexivity]. Qed.
+
+  Lemma peq_matched n :
+    existsb (fun e => mmatch I (snd (fst e)) n) (elsMatchingAndAttrs p) = existsb (fun e => mmatch I (snd (fst e)) n) (elsMatchingAndAttrs q).
+  Proof.
+    rewrite (existsb_ext_eq _ (fun e => mmatch I (snd (fst e)) n && true) (elsMatchingAndAttrs p)) by (intros; rewrite andb_true_r; reflexivity).
+    rewrite (existsb_ext_eq _ (fun e => mmatch I (snd (fst e)) n && true) (elsMatchingAndAttrs q)) by (intros; rewrite andb_true_r; reflexivity).
+    apply (rmap_eq_existsb M _ (fun r => mmatch I r n) (fun _ => true)); [reflexivity | exact (pe_ema p q E)].
+  Qed.
+
+  Lemma peq_end_tail st n : end_tail I p st n = end_tail I q st n.
+  Proof.
+    unfold end_tail. pose proof (pe_ea p q E n) as T.
+    rewrite peq_matched, (mem_same_set n _ _ (pe_skip p q E)), peq_space.
+    destruct (lookup n (elsAndAttrs p)), (lookup n (elsAndAttrs q)); cbn in T; try contradiction; reflexivity.
+  Qed.
+
+  Lemma peq_step st t : step I p st t = step I q st t.
+  Proof.
+    destruct t as [d|n a|n|n a|d|d]; cbn [step].
+    - rewrite (pe_unsafe p q E). reflexivity.
+    - rewrite (pe_unsafe p q E). destruct (is_script_or_style n && negb (allowUnsafe q)); [reflexivity|].
+      pose proof (peq_element_policies n) as T.
+      destruct (element_policies I p n) as [aps1|], (element_policies I q n) as [aps2|]; cbn in T; try contradiction.
+      + rewrite (peq_clean_attrs n a aps1 aps2 T), peq_allow_no_attrs, peq_space. reflexivity.
+      + rewrite (mem_same_set n _ _ (pe_skip p q E)), peq_space. reflexivity.
+    - rewrite (pe_unsafe p q E). destruct (is_script_or_style n && negb (allowUnsafe q)); [reflexivity|].
+      set (st1 := if beqb (recent st) (normalise n) then set_recent st [] else st).
+      destruct (skipClosing st1); [|apply peq_end_tail].
+      destruct (stack st1) as [|[top k] rest]; [reflexivity|].
+      destruct (beqb top n); [|apply peq_end_tail]. destruct k; [rewrite peq_space; reflexivity | apply peq_end_tail].
+    - rewrite (pe_unsafe p q E). destruct (is_script_or_style n && negb (allowUnsafe q)); [reflexivity|].
+      pose proof (peq_element_policies n) as T.
+      destruct (element_policies I p n) as [aps1|], (element_policies I q n) as [aps2|]; cbn in T; try contradiction.
+      + rewrite (peq_clean_attrs n a aps1 aps2 T), peq_allow_no_attrs, peq_space. reflexivity.
+      + rewrite peq_space. reflexivity.
+    - rewrite (pe_comments p q E). reflexivity.
+    - reflexivity.
+  Qed.
+
+  Lemma peq_run_from : forall ts st, run_from I p st ts = run_from I q st ts.
+  Proof.
+    induction ts as [|t ts IH]; intros st; cbn [run_from]; [reflexivity|].
+    rewrite peq_step. destruct (step I q st t) as [st' out|]; [|reflexivity]. rewrite IH. reflexivity.
+  Qed.
+
+  (* the same rules, the same bytes: for every input *)
+  Theorem peq_sanitize s : sanitize_bytes I p s = sanitize_bytes I q s.
+  Proof. unfold sanitize_bytes, sanitize_tokens, emitted, run_items. rewrite peq_run_from. reflexivity. Qed.
+
+  Theorem peq_sanitize_tokens ts : run I p ts = run I q ts.
+  Proof. unfold run, run_items. rewrite peq_run_from. reflexivity. Qed.
+End Peq.
+Arguments peq {M U R} p q.
+Arguments peq_sanitize {M U R} I p q E s.
